@@ -24,6 +24,7 @@ import (
 )
 
 type thread struct {
+	gid    int64
 	id     int
 	name   string
 	gate   chan struct{}
@@ -85,7 +86,8 @@ func (s *Sched) Go(name string, f func()) {
 	s.mu.Unlock()
 	go func() {
 		s.mu.Lock()
-		s.byGID[gid()] = t
+		t.gid = gid()
+		s.byGID[t.gid] = t
 		s.mu.Unlock()
 		<-t.gate
 		defer func() {
@@ -147,7 +149,7 @@ func (s *Sched) Point(desc string) {
 		return // a goroutine this execution does not control (background worker of the client)
 	}
 	if t == nil {
-		t = &thread{id: s.nextID, name: "adopted", gate: make(chan struct{}, 1)}
+		t = &thread{id: s.nextID, name: "adopted", gate: make(chan struct{}, 1), gid: g}
 		s.nextID++
 		s.threads = append(s.threads, t)
 		s.byGID[g] = t
@@ -173,7 +175,8 @@ func (s *Sched) GoNow(name string, f func()) {
 	ready := make(chan struct{})
 	go func() {
 		s.mu.Lock()
-		s.byGID[gid()] = t
+		t.gid = gid()
+		s.byGID[t.gid] = t
 		s.mu.Unlock()
 		close(ready)
 		defer func() {
@@ -257,6 +260,7 @@ func (s *Sched) enabledActions() ([]action, bool) {
 
 // Threads returns "id(name)" of every thread that has not finished.
 func (s *Sched) Unfinished() []string {
+	s.reap()
 	s.mu.Lock()
 	defer s.mu.Unlock()
 	var out []string
@@ -281,9 +285,42 @@ func (s *Sched) Canonicalize() {
 	s.nextID = len(s.threads)
 }
 
+// reap marks adopted threads whose goroutine has ended as finished (an adopted goroutine has no wrapper that could say so).
+func (s *Sched) reap() {
+	buf := make([]byte, 1<<20)
+	for {
+		n := runtime.Stack(buf, true)
+		if n < len(buf) {
+			buf = buf[:n]
+			break
+		}
+		buf = make([]byte, 2*len(buf))
+	}
+	alive := map[int64]bool{}
+	for _, line := range bytes.Split(buf, []byte("\n")) {
+		if bytes.HasPrefix(line, []byte("goroutine ")) {
+			rest := line[len("goroutine "):]
+			if i := bytes.IndexByte(rest, ' '); i > 0 {
+				if id, err := strconv.ParseInt(string(rest[:i]), 10, 64); err == nil {
+					alive[id] = true
+				}
+			}
+		}
+	}
+	s.mu.Lock()
+	defer s.mu.Unlock()
+	for _, t := range s.threads {
+		if !t.done && !t.parked && t.name == "adopted" && t.gid != 0 && !alive[t.gid] {
+			t.done = true
+			delete(s.byGID, t.gid)
+		}
+	}
+}
+
 // Blocked lists the threads that are neither parked at a point nor finished (blocked inside code the scheduler does not
 // see), with the description of the last point each of them passed.
 func (s *Sched) Blocked() []string {
+	s.reap()
 	s.mu.Lock()
 	defer s.mu.Unlock()
 	var out []string
